@@ -6,6 +6,7 @@ CONSTANTS
   Rendezvous = FALSE
   MaxData = 0
   Pumps = FALSE
+  Blind = FALSE
 INVARIANTS TypeOK AtMostOneAdopted AdoptedAuthenticated NoAnswerToStrangers OnlyAdoptedFeeds FallbackWorks AgreeConsistent NoLateAdoption
 CONSTRAINT HW
 POSTCONDITION Accepted
